@@ -210,7 +210,10 @@ determine_durtype(struct dt_dt_s d1, struct dt_dt_s d2, durfmt_t f)
 		return (dt_dtdurtyp_t)DT_DURYWD;
 	} else if (f.has_mon || f.has_qtr) {
 		return (dt_dtdurtyp_t)DT_DURYMD;
-	} else if (f.has_year && f.has_day) {
+	} else if (f.has_year &&
+		   (f.has_day || f.has_hour || f.has_min || f.has_sec)) {
+		/* years and something finer than months, the days
+		 * of the year are carried on to the finer units */
 		return (dt_dtdurtyp_t)DT_DURYD;
 	} else if (f.has_day && f.has_biz) {
 		return (dt_dtdurtyp_t)DT_DURBD;
